@@ -471,6 +471,109 @@ def formulas(ctx, mod):
                   'normalisation of Gamma differs: %s ; clamp %s' % (unparse(divs[0]), [unparse(c) for c in clamp]), mod.loc(divs[0]))
 
 
+def compute_drho(ctx, mod):
+    """Bounded-exhaustive decision of the slice arithmetic of _compute_drho: for every (w_max, i) on a grid the three slices must
+    pick rho(k+i), rho(|k-i|) and rho(k) for k = 1 .. w_max-i-1 (Wolff eq. (E.11)); only the extracted index expressions are
+    evaluated, on lists of integers."""
+    rule = 'C02-D5'
+    f = mod.func('Obs.gamma_method._compute_drho')
+    iv = f.args.args[0].arg
+    key = 'obs.py:Obs.gamma_method._compute_drho'
+    tmp = [s for s in statements(f) if isinstance(s, ast.Assign) and isinstance(s.targets[0], ast.Name)]
+    store = [s for s in statements(f) if isinstance(s, ast.Assign) and isinstance(s.targets[0], ast.Subscript)]
+    if len(tmp) != 1 or len(store) != 1:
+        ctx.unrec(rule, key, 'expected one local and one store')
+        return
+
+    def ev_int(e, env):
+        if e is None:
+            return None
+        if isinstance(e, ast.Constant):
+            return e.value
+        if isinstance(e, ast.Name):
+            return env[e.id]
+        if isinstance(e, ast.UnaryOp) and isinstance(e.op, ast.USub):
+            return -ev_int(e.operand, env)
+        if isinstance(e, ast.BinOp):
+            a, b = ev_int(e.left, env), ev_int(e.right, env)
+            return {ast.Add: lambda: a + b, ast.Sub: lambda: a - b, ast.Mult: lambda: a * b, ast.FloorDiv: lambda: a // b}[type(e.op)]()
+        if isinstance(e, ast.IfExp):
+            return ev_int(e.body, env) if ev_bool(e.test, env) else ev_int(e.orelse, env)
+        if isinstance(e, ast.Call) and call_name(e) in ('max', 'min'):
+            vals = [ev_int(a, env) for a in e.args]
+            return max(vals) if call_name(e) == 'max' else min(vals)
+        raise Unrecognised('integer expression %s' % unparse(e))
+
+    def ev_bool(e, env):
+        if isinstance(e, ast.Compare) and len(e.ops) == 1:
+            a, b = ev_int(e.left, env), ev_int(e.comparators[0], env)
+            return {ast.LtE: a <= b, ast.Lt: a < b, ast.GtE: a >= b, ast.Gt: a > b, ast.Eq: a == b, ast.NotEq: a != b}[type(e.ops[0])]
+        raise Unrecognised('condition %s' % unparse(e))
+
+    def ev_vec(e, env):
+        """list of (coefficient-structure) : we evaluate index lists; arithmetic is tracked as tuples"""
+        if isinstance(e, ast.Subscript) and 'e_rho' in unparse(e.value):
+            sl = e.slice
+            n = env['w_max']
+            idx = list(range(n))
+            if isinstance(sl, ast.Slice):
+                lo, hi, st = ev_int(sl.lower, env), ev_int(sl.upper, env), ev_int(sl.step, env)
+                return [('rho', k) for k in idx[slice(lo, hi, st)]]
+            return ('scalar', ('rho', idx[ev_int(sl, env)]))
+        if isinstance(e, ast.Call) and call_name(e) == 'concatenate':
+            parts = e.args[0].elts
+            out = []
+            for p_ in parts:
+                out += ev_vec(p_, env)
+            return out
+        if isinstance(e, ast.BinOp):
+            a, b = ev_vec(e.left, env), ev_vec(e.right, env)
+            op = type(e.op).__name__
+            if isinstance(a, list) and isinstance(b, list):
+                if len(a) != len(b):
+                    raise Unrecognised('length mismatch %d vs %d' % (len(a), len(b)))
+                return [(op, x, y) for x, y in zip(a, b)]
+            if isinstance(a, list):
+                return [(op, x, b) for x in a]
+            if isinstance(b, list):
+                return [(op, a, y) for y in b]
+            return ('scalar', (op, a, b))
+        if isinstance(e, ast.Constant):
+            return ('scalar', e.value)
+        raise Unrecognised('vector expression %s' % unparse(e))
+    bad = None
+    n_cases = 0
+    try:
+        for w in range(4, 15):
+            for i in range(1, w // 2 + 1):
+                env = {'w_max': w, iv: i}
+                try:
+                    got = ev_vec(tmp[0].value, env)
+                except Unrecognised as e:
+                    if 'length mismatch' in str(e):
+                        bad = (w, i, str(e))
+                        break
+                    raise
+                n_cases += 1
+                want = []
+                for k in range(1, w - i):
+                    t1, t2, t3 = ('rho', i + k), ('rho', abs(i - k)), ('rho', k)
+                    want.append(('Sub', ('Add', t1, t2), ('Mult', ('scalar', ('Mult', ('scalar', 2), ('scalar', ('rho', i)))), t3)))
+                norm = lambda x: repr(x)
+                if norm(got) != norm(want):
+                    bad = (w, i, 'terms differ at k=%s' % next((k + 1 for k, (a_, b_) in enumerate(zip(got, want)) if repr(a_) != repr(b_)), 'length %d vs %d' % (len(got), len(want))))
+                    break
+            if bad:
+                break
+    except (Unrecognised, KeyError, TypeError) as e:
+        ctx.unrec(rule, key + '#terms', 'cannot evaluate the slice arithmetic: %s' % e, mod.loc(tmp[0]))
+        return
+    ctx.check(rule, key + '#terms', bad is None, 'for all %d pairs (w_max <= 14, i <= w_max/2): term k = rho(k+i) + rho(|k-i|) - 2 rho(i) rho(k), k = 1..w_max-i-1' % n_cases,
+              'for w_max=%s, i=%s the terms of drho differ from rho(k+i) + rho(|k-i|) - 2 rho(i) rho(k): %s' % (bad if bad else ('', '', '')), mod.loc(tmp[0]))
+    ok = unparse(store[0].value).replace(tmp[0].targets[0].id, 'tmp') == 'np.sqrt(np.sum(tmp ** 2) / e_N)' and unparse(store[0].targets[0].slice) == iv
+    ctx.check(rule, key + '#norm', ok, 'drho(i) = sqrt(sum_k term_k^2 / N), stored at lag i', 'stored %s = %s' % (unparse(store[0].targets[0]), unparse(store[0].value)), mod.loc(store[0]))
+
+
 def paired_calc_gamma(ctx, mod):
     rule = 'C02-D3'
     f = mod.func('Obs.gamma_method')
@@ -679,12 +782,14 @@ def run(ctx):
     ctx.rule('C02-D2', 'window criteria / drho evaluated at the lag they are used for')
     ctx.rule('C02-D3', 'pair-count normalisation uses the same estimator and arguments')
     ctx.rule('C02-D4', '_calc_gamma: FFT padding sufficient, direct path sums lag-n products')
-    ctx.not_decided += ['numerical equality of irfft(|rfft|^2) with the direct sum', '_compute_drho slice arithmetic',
+    ctx.not_decided += ['numerical equality of irfft(|rfft|^2) with the direct sum', '_compute_drho beyond w_max = 14 (bounded exhaustive below)',
                         'behaviour on constant or alternating data']
     obs = ctx.repo.mod('obs')
     ctx.guarded('C02-D1', 'obs.py:Obs.gamma_method@formulas', formulas, ctx, obs)
     ctx.guarded('C02-D3', 'obs.py:Obs.gamma_method@pair', paired_calc_gamma, ctx, obs)
     ctx.guarded('C02-D4', 'obs.py:Obs._calc_gamma', calc_gamma, ctx, obs)
+    ctx.rule('C02-D5', 'error of rho: slice arithmetic of _compute_drho (bounded exhaustive, w_max <= 14)')
+    ctx.guarded('C02-D5', 'obs.py:_compute_drho', compute_drho, ctx, obs)
     ctx.guarded('C02-D1', 'covobs.py:Covobs.errsq', errsq, ctx)
     ctx.floor('C02 obligations', len(ctx.obs), 40)
 
@@ -706,6 +811,9 @@ SELFTEST = [
     ('ddvalue-not-normalised', 'pyerrors/obs.py', "self.ddvalue = np.sqrt(self.ddvalue) / self._dvalue", "self.ddvalue = np.sqrt(self.ddvalue)", 'C02-D1'),
     ('no-pair-clamp', 'pyerrors/obs.py', "gamma_div[gamma_div < 1] = 1.0", "gamma_div[gamma_div < 0] = 1.0", 'C02-D3'),
     ('clamp-inside-loop', 'pyerrors/obs.py', "            gamma_div[gamma_div < 1] = 1.0\n", "                gamma_div[gamma_div < 1] = 1.0\n", 'C02-D3'),
+    ('drho-factor-two', 'pyerrors/obs.py', "                       - 2 * self.e_rho[e_name][i] * self.e_rho[e_name][1:w_max - i])", "                       - self.e_rho[e_name][i] * self.e_rho[e_name][1:w_max - i])", 'C02-D5'),
+    ('drho-mirror-start', 'pyerrors/obs.py', "self.e_rho[e_name][i - 1:None if i - (w_max - 1) // 2 <= 0", "self.e_rho[e_name][i:None if i - (w_max - 1) // 2 <= 0", 'C02-D5'),
+    ('drho-norm', 'pyerrors/obs.py', "self.e_drho[e_name][i] = np.sqrt(np.sum(tmp ** 2) / e_N)", "self.e_drho[e_name][i] = np.sqrt(np.sum(tmp ** 2)) / e_N", 'C02-D5'),
     ('direct-lag-dropped', 'pyerrors/obs.py', "deltas[0:new_shape - n].dot(deltas[n:new_shape])", "deltas[0:new_shape - n].dot(deltas[0:new_shape - n])", 'C02-D4'),
     ('rho-normalisation', 'pyerrors/obs.py', "self.e_rho[e_name] = e_gamma[e_name][:w_max] / e_gamma[e_name][0]", "self.e_rho[e_name] = e_gamma[e_name][:w_max] / e_gamma[e_name][1]", 'C02-D1'),
     ('cumsum-first', 'pyerrors/obs.py', "np.cumsum(np.concatenate(([0.5], self.e_rho[e_name][1:])))", "np.cumsum(np.concatenate(([1.0], self.e_rho[e_name][1:])))", 'C02-D1'),
